@@ -8,12 +8,14 @@ Open Scope Z_scope.
 
 (* what the end-to-end driver sees of the wrapper: is the remote in the peer registry, the
    notifier.Connected calls, the block placed on the remote (-1 none, 0 for ever, else ns; -3 when
-   BlockedPeers cannot show it because the remote's peer id has no Ethereum address), whether the
-   transport connection to the remote was closed (seen from the remote's host, within a bound), and --
+   BlockedPeers cannot show it because the remote's peer id has no Ethereum address), whether NO
+   transport connection to the remote's peer id is left (seen from every host instance of that
+   remote that the session keeps alive, within a bound), the notifier.Disconnected calls, and --
    when the remote is registered -- the record a follow-up Connect returns through the isConnected
    short cut (the registry's own (address, role)) and whether that follow-up started a handshake *)
 Record wrapobs := { w_registered : bool; w_notified : list (bytes * Z); w_block : Z;
-                    w_closed : bool; w_record : option (bytes * Z); w_second_hs : bool }.
+                    w_closed : bool; w_record : option (bytes * Z); w_second_hs : bool;
+                    w_gone : list (bytes * Z) (* notifier.Disconnected calls *) }.
 
 Record case := {
   id : N;
@@ -30,7 +32,11 @@ Record case := {
                                10 the exchange did not complete within the bound *)
   o_addr : bytes; o_role : Z;
   o_written : list wframe; o_lookups : list bytes; o_verifies : list (bytes * bytes);
-  o_wrap : option wrapobs
+  o_wrap : option wrapobs;
+  (* end-to-end sessions: the registry entry of the remote's peer id just before this handshake, read by
+     the driver through Connect's short cut (an earlier handshake of the session, on another transport
+     connection that is still open, created it); None otherwise *)
+  prior : option (bytes * Z)
 }.
 
 (* ---- equality tests ---------------------------------------------------------------------------- *)
@@ -74,9 +80,13 @@ Definition model_run (c : case) : run :=
   if (dir c =? 0)%N then handle (cfg c) (oracles_of c) (wfail_of c) (script c)
   else handshake (cfg c) (oracles_of c) (wfail_of c) (script c).
 
-Definition model_effects (c : case) : list effect :=
-  if (dir c =? 0)%N then handle_connect_req true Added (res (model_run c))
-  else connect Added (res (model_run c)).
+(* the event of model/Handshake.v's node machine that an end-to-end case realises (the connection is
+   open when addPeer runs) *)
+Definition event_of (c : case) : event :=
+  if (dir c =? 0)%N then EvInbound (oracles_of c) (wfail_of c) (script c) true false
+  else EvConnect (oracles_of c) (wfail_of c) (script c) false.
+Definition entry_of (c : case) : option (bytes * Z) := fst (node_step (cfg c) (prior c) (event_of c)).
+Definition model_effects (c : case) : list effect := snd (node_step (cfg c) (prior c) (event_of c)).
 
 (* ---- correspondence ---------------------------------------------------------------------------- *)
 Definition refusal_code (r : refusal) : N :=
@@ -98,6 +108,8 @@ Definition eff_registered (l : list effect) : bool :=
   existsb (fun e => match e with ERegister _ _ => true | _ => false end) l.
 Definition eff_notified (l : list effect) : list (bytes * Z) :=
   flat_map (fun e => match e with ENotify a t => [(a, t)] | _ => [] end) l.
+Definition eff_gone (l : list effect) : list (bytes * Z) :=
+  flat_map (fun e => match e with ENotifyGone a t => [(a, t)] | _ => [] end) l.
 Definition eff_block (l : list effect) : Z :=
   match flat_map (fun e => match e with EBlock d => [d] | _ => [] end) l with
   | d :: _ => d
@@ -107,12 +119,6 @@ Definition eff_block (l : list effect) : Z :=
 Definition eff_closed (l : list effect) : bool :=
   existsb (fun e => match e with EClosePeer => true | _ => false end) l.
 
-(* the event of model/Handshake.v's node machine that an end-to-end case realises (fresh Service:
-   no entry before; the connection is open when addPeer runs) *)
-Definition event_of (c : case) : event :=
-  if (dir c =? 0)%N then EvInbound (oracles_of c) (wfail_of c) (script c) true false
-  else EvConnect (oracles_of c) (wfail_of c) (script c) false.
-Definition entry_of (c : case) : option (bytes * Z) := fst (node_step (cfg c) None (event_of c)).
 (* what a follow-up Connect does on that entry: the short cut returns the entry, no handshake *)
 Definition follow_up (c : case) : list effect :=
   match entry_of c with
@@ -132,7 +138,8 @@ Definition wrap_agrees (c : case) : bool :=
   | None => (mode c =? 0)%N
   | Some w =>
       let e := model_effects c in
-      Bool.eqb (w_registered w) (eff_registered e) &&
+      Bool.eqb (w_registered w) (match entry_of c with Some _ => true | None => false end) &&
+      list_eqb note_eqb (w_gone w) (eff_gone e) &&
       list_eqb note_eqb (w_notified w) (eff_notified e) &&
       ((w_block w =? -3) || (w_block w =? eff_block e)) &&   (* -3: not observable (remote without address) *)
       Bool.eqb (w_closed w) (eff_closed e) &&
@@ -200,19 +207,22 @@ Definition violation (c : case) : list string :=
     match o_wrap c with
     | None => []
     | Some w =>
-        (* the registry's own record, read back through Connect's short cut *)
-        match w_record w with
-        | Some n => match enrol_violation c (fst n) (snd n) with Some k => [k] | None => [] end
-        | None => []
-        end ++
         (if (o_res c =? 0)%N then
            flat_map (fun n => match enrol_violation c (fst n) (snd n) with Some k => [k] | None => [] end)
                     (w_notified w)
          else
-           (if w_registered w || negb (list_eqb note_eqb (w_notified w) [])
-            then ["effect-on-refusal"%string] else []) ++
-           (* "ends with the connection refused": the transport connection must be gone *)
-           (if w_closed w then [] else ["refused-left-open"%string]))
+           (* "ends with the connection refused and no peer registered or announced" *)
+           (if w_registered w
+            then [match prior c with Some _ => "refused-still-registered" | None => "effect-on-refusal" end%string]
+            else []) ++
+           (if negb (list_eqb note_eqb (w_notified w) []) then ["effect-on-refusal"%string] else []) ++
+           (* no transport connection to that peer id may be left *)
+           (if w_closed w then [] else ["refused-left-open"%string])) ++
+        (* the registry's own record, read back through Connect's short cut *)
+        match w_record w with
+        | Some n => match enrol_violation c (fst n) (snd n) with Some k => [k] | None => [] end
+        | None => []
+        end
     end in
   direct ++ wrapped.
 
